@@ -294,7 +294,7 @@ theorem pass_setup (w : World) (rest : List Frame) (hc : Counts w) (hf : FlagsOk
   have he : expected rest = some (w.collecting, w.finalizing, w.dropping) := by
     have := hf; rw [flagsOk_iff, hs] at this; simpa using this
   have hL : listed rest = [] := listed_below_pass he hwf
-  refine ⟨(hc.pop hs).1.toCounts, ?_⟩
+  refine ⟨(hc.pop hs).1.toCountsF, ?_⟩
   have : WOI { w with stack := rest } ([] ++ listed rest) ([] ++ zeroed rest) ([] ++ cycs rest) := hoi
   simpa [hL] using this
 
@@ -308,7 +308,7 @@ theorem stepFrame_inv_collectPass (c : Cfg) (w : World) (rest : List Frame) (hc 
   have hoi0 : WOI { w with stack := rest } [] (zeroed rest) (cycs rest) := by
     have : WOI { w with stack := rest } ([] ++ listed rest) ([] ++ zeroed rest) ([] ++ cycs rest) := hoi
     simpa [hL] using this
-  have hc0 : Counts { w with stack := rest } := (hc.pop hs).1.toCounts
+  have hc0 : Counts { w with stack := rest } := (hc.pop hs).1.toCountsF
   -- hypotheses of the graph theorems
   have hex := exact_of_counts { w with stack := rest } hc0
   have ctx := T1.ctx_of_exact _ _ _ hex
